@@ -20,6 +20,22 @@ Pipeline of `py_vc` (every step is a separate small tactic so that it can be tri
 -/
 open Py Std.Do Lean Elab Tactic Meta
 
+namespace Lean.Expr
+/-- all subterms satisfying `p` (no duplicates, outermost first) -/
+partial def collect (e : Expr) (p : Expr → Bool) : Array Expr :=
+  let rec go (e : Expr) (acc : Array Expr) : Array Expr :=
+    let acc := if p e && !acc.contains e then acc.push e else acc
+    match e with
+    | .app f a => go a (go f acc)
+    | .lam _ t b _ => go b (go t acc)
+    | .forallE _ t b _ => go b (go t acc)
+    | .letE _ t v b _ => go b (go v (go t acc))
+    | .mdata _ e => go e acc
+    | .proj _ _ e => go e acc
+    | _ => acc
+  go e #[]
+end Lean.Expr
+
 /-- clear the join-point definitions `mvcgen` leaves in the context -/
 elab "clear_jps" : tactic => do
   let g ← getMainGoal
@@ -102,6 +118,155 @@ theorem digitsVal_four (a b c d : Nat) :
 
 end Py
 
+/-! ## regular-expression gates -/
+
+syntax "py_nonl" : tactic
+/-- the subject of a `$`-anchored match does not end in a newline (it is a `strip()` result, a digit string …) -/
+macro_rules | `(tactic| py_nonl) => `(tactic| first
+  | exact Py.getLast?_strip_ne _
+  | (apply Py.getLast?_slice_some_none_ne; py_nonl)
+  | (apply Py.getLast?_upper_ne; py_nonl)
+  | exact Py.getLast?_ne_of_allIn ‹AllIn isAsciiDigit _› (by decide)
+  | assumption)
+
+namespace Py.VcImpl
+
+/-- evaluate a closed `Nat` term to a numeral -/
+def evalNat? (e : Expr) : MetaM (Option Nat) := do
+  if e.hasFVar || e.hasMVar then return none
+  let v ← whnf e
+  match v with
+  | .lit (.natVal n) => return some n
+  | _ => return v.nat?
+
+/-- evaluate a closed `Option Nat` term -/
+def evalOptNat? (e : Expr) : MetaM (Option (Option Nat)) := do
+  if e.hasFVar || e.hasMVar then return none
+  let v ← whnf e
+  if v.isAppOfArity ``Option.some 2 then
+    let some n ← evalNat? v.appArg! | return none
+    return some (some n)
+  else if v.isAppOfArity ``Option.none 1 then return some none
+  else return none
+
+/-- `LenIn b (List.length t)` hypothesis `h`: add the numeric bounds `lo ≤ |t|` and `|t| ≤ hi` as numerals -/
+def addLenFacts (h : TSyntax `term) (ty : Expr) : TacticM Unit := do
+  unless ty.isAppOfArity ``Py.Re.LenIn 2 do return
+  let b := ty.getArg! 0
+  let n := ty.getArg! 1
+  let nStx ← Term.exprToSyntax n
+  let bTy ← inferType b
+  let some lo ← evalNat? (mkApp3 (mkConst ``Prod.fst [0, 0]) (bTy.getArg! 0) (bTy.getArg! 1) b) | return
+  let loStx := Syntax.mkNumLit (Nat.repr lo)
+  evalTactic (← `(tactic| have hlo__ : $loStx ≤ $nStx := Py.Re.LenIn.lower $h))
+  let some (some hi) ← evalOptNat? (mkApp3 (mkConst ``Prod.snd [0, 0]) (bTy.getArg! 0) (bTy.getArg! 1) b) | return
+  let hiStx := Syntax.mkNumLit (Nat.repr hi)
+  evalTactic (← `(tactic| have hhi__ : $nStx ≤ $hiStx := Py.Re.LenIn.upper $h rfl))
+  if lo == hi then
+    evalTactic (← `(tactic| have hleq__ : $nStx = $hiStx := by omega))
+
+end Py.VcImpl
+
+open Py.VcImpl in
+/-- turn regex gates into alphabet/length facts:
+* `(Re.match_ P S).isSome = true` (or `Re.match_ P S = some m`) gives `S.all (· ∈ charList P)` and bounds on `|S|`;
+* `m.groupNamedR name = .ok t` with `Re.match_/search P S = some m` gives the same for the group text `t` -/
+elab "py_rx_facts" : tactic => withMainContext do
+  let lctx ← getLCtx
+  -- match objects: m ↦ (proof of FromRun as syntax)
+  let mut runs : Array (Expr × TSyntax `term) := #[]
+  for ldecl in lctx do
+    if ldecl.isImplementationDetail then continue
+    let t ← instantiateMVars ldecl.type
+    let some (_, lhs, rhs) := t.eq? | continue
+    if rhs.isAppOfArity ``Option.some 2 then
+      let m := rhs.appArg!
+      let hS ← Term.exprToSyntax (mkFVar ldecl.fvarId)
+      if lhs.isAppOfArity ``Py.Re.match_ 3 then
+        runs := runs.push (m, ← `(Py.Re.match_fromRun $hS))
+      else if lhs.isAppOfArity ``Py.Re.search 3 then
+        runs := runs.push (m, ← `(Py.Re.search_fromRun $hS))
+  for ldecl in lctx do
+    if ldecl.isImplementationDetail then continue
+    let t ← instantiateMVars ldecl.type
+    let some (_, lhs, rhs) := t.eq? | continue
+    let hS ← Term.exprToSyntax (mkFVar ldecl.fvarId)
+    -- whole-match gate
+    let gate? : Option (TSyntax `term) ←
+      if lhs.isAppOfArity ``Option.isSome 2 && rhs.isConstOf ``Bool.true && (lhs.appArg!).isAppOfArity ``Py.Re.match_ 3 then
+        pure (some hS)
+      else if lhs.isAppOfArity ``Py.Re.match_ 3 && rhs.isAppOfArity ``Option.some 2 then
+        pure (some (← `(by rw [$hS:term]; rfl)))
+      else pure none
+    if let some g := gate? then
+      try
+        evalTactic (← `(tactic| have hrx__ := Py.Re.match_gate (by rfl) (by decide) $g (by py_nonl)))
+        evalTactic (← `(tactic| have hrxa__ := hrx__.1))
+        evalTactic (← `(tactic| have hrxl__ := hrx__.2))
+        evalTactic (← `(tactic| clear hrx__))
+        -- numeric bounds
+        withMainContext do
+          for d in (← getLCtx) do
+            if d.isImplementationDetail then continue
+            let ty ← instantiateMVars d.type
+            if ty.isAppOfArity ``Py.Re.LenIn 2 then
+              let dS ← Term.exprToSyntax (mkFVar d.fvarId)
+              addLenFacts dS ty
+              evalTactic (← `(tactic| clear $(⟨dS⟩):term)) <|> pure ()
+      catch _ => pure ()
+    -- group text
+    if lhs.isAppOfArity ``Py.Re.Match.groupNamedR 2 && rhs.isAppOfArity ``Except.ok 3 then
+      let m := lhs.getArg! 0
+      for (m', run) in runs do
+        if m' == m then
+          try
+            evalTactic (← `(tactic| have hrx__ := Py.Re.group_gate_named $run $hS rfl (by decide) rfl (by decide)))
+            evalTactic (← `(tactic| have hrxa__ := hrx__.1))
+            evalTactic (← `(tactic| have hrxl__ := hrx__.2))
+            evalTactic (← `(tactic| clear hrx__))
+            withMainContext do
+              for d in (← getLCtx) do
+                if d.isImplementationDetail then continue
+                let ty ← instantiateMVars d.type
+                if ty.isAppOfArity ``Py.Re.LenIn 2 then
+                  let dS ← Term.exprToSyntax (mkFVar d.fvarId)
+                  addLenFacts dS ty
+                  evalTactic (← `(tactic| clear $(⟨dS⟩):term)) <|> pure ()
+          catch _ => pure ()
+          break
+
+open Py.VcImpl in
+/-- exceptional branch of `m.groupNamedR name`: impossible when the group is mandatory in the pattern -/
+elab "py_rx_exc" : tactic => withMainContext do
+  let lctx ← getLCtx
+  let mut runs : Array (Expr × TSyntax `term) := #[]
+  for ldecl in lctx do
+    if ldecl.isImplementationDetail then continue
+    let t ← instantiateMVars ldecl.type
+    let some (_, lhs, rhs) := t.eq? | continue
+    if rhs.isAppOfArity ``Option.some 2 then
+      let m := rhs.appArg!
+      let hS ← Term.exprToSyntax (mkFVar ldecl.fvarId)
+      if lhs.isAppOfArity ``Py.Re.match_ 3 then
+        runs := runs.push (m, ← `(Py.Re.match_fromRun $hS))
+      else if lhs.isAppOfArity ``Py.Re.search 3 then
+        runs := runs.push (m, ← `(Py.Re.search_fromRun $hS))
+  for ldecl in lctx do
+    if ldecl.isImplementationDetail then continue
+    let t ← instantiateMVars ldecl.type
+    let some (_, lhs, rhs) := t.eq? | continue
+    if lhs.isAppOfArity ``Py.Re.Match.groupNamedR 2 && rhs.isAppOfArity ``Except.error 3 then
+      let m := lhs.getArg! 0
+      let nameS ← Term.exprToSyntax (lhs.getArg! 1)
+      let hS ← Term.exprToSyntax (mkFVar ldecl.fvarId)
+      for (m', run) in runs do
+        if m' == m then
+          evalTactic (← `(tactic| (
+            obtain ⟨t__, ht__, _⟩ := Py.Re.Match.groupNamedR_ok_of_setsGroup (name := $nameS) $run rfl rfl (by decide) (by decide)
+            exact absurd (ht__.symm.trans $hS) (by intro hh__; cases hh__))))
+          return
+  throwError "py_rx_exc: no failing group access"
+
 /-! ## step 1: preparation -/
 
 /-- split every `∧` / `∃` hypothesis -/
@@ -136,9 +301,29 @@ macro "py_recompact" : tactic => `(tactic|
 /-- forward facts from the gates: `isDigitsB t = true` gives `0 < |t|` and `AllIn isAsciiDigit t` -/
 elab "py_facts" : tactic => withMainContext do
   let mut g ← getMainGoal
+  -- `dictGetD D k dflt` (integer values) occurring in the goal: small
+  let tgt ← instantiateMVars (← g.getType)
+  let dterms := (tgt.collect (fun e => e.isAppOfArity ``Py.dictGetD 6) : Array Expr)
+  for e in dterms do
+    unless (e.getArg! 1).isConstOf ``Int do continue
+    let dS ← Term.exprToSyntax (e.getArg! 3)
+    let kS ← Term.exprToSyntax (e.getArg! 4)
+    let fS ← Term.exprToSyntax (e.getArg! 5)
+    try
+      evalTactic (← `(tactic| have hgd__ := Py.dictGetD_small (D := $dS) $kS $fS (by decide) (by decide)))
+    catch _ => pure ()
+  g ← getMainGoal
   for ldecl in ← getLCtx do
     if ldecl.isImplementationDetail then continue
     let t ← instantiateMVars ldecl.type
+    if t.isAppOfArity ``Membership.mem 5 && (t.getArg! 4).isAppOfArity ``Prod.mk 4 && !(t.getArg! 3).hasFVar then
+      let hS ← Term.exprToSyntax (mkFVar ldecl.fvarId)
+      try
+        setGoals [g]
+        evalTactic (← `(tactic| have hdv__ := Py.dict_val_small (by decide) $hS))
+        g ← getMainGoal
+      catch _ => pure ()
+      continue
     let some (_, lhs, rhs) := t.eq? | continue
     unless lhs.isAppOfArity ``Py.isDigitsB 1 && rhs.isConstOf ``Bool.true do continue
     let h := mkFVar ldecl.fvarId
@@ -152,9 +337,13 @@ elab "py_facts" : tactic => withMainContext do
       pure g
   replaceMainGoal [g]
 
+/-- `re.search` with a `^` pattern is `re.match` -/
+macro "py_rx_norm" : tactic => `(tactic|
+  (try simp (disch := decide) only [Py.Re.search_eq_match] at *))
+
 macro "py_prep" : tactic => `(tactic|
   (intros; py_zeta; all_goals py_cases_and; all_goals (try subst_vars); all_goals py_norm; all_goals py_cases_and;
-   all_goals (try subst_vars); all_goals py_recompact; all_goals py_facts))
+   all_goals (try subst_vars); all_goals py_rx_norm; all_goals (try py_rx_facts); all_goals py_recompact; all_goals py_facts))
 
 /-! ## step 3: strings of known length -/
 
@@ -163,6 +352,7 @@ macro_rules
   | `(tactic| py_explode_go $h) => `(tactic| first
     | (have h0__ := List.eq_nil_of_length_eq_zero $h; subst h0__; try clear $h)
     | (obtain ⟨c, t, hs, h'⟩ := Py.explode_succ $h; subst hs; py_explode_go h'; try clear h'))
+
 
 namespace Py.VcImpl
 
@@ -245,7 +435,8 @@ elab "py_split_len" : tactic => liftMetaTactic fun g => do
 /-- evaluate the sequence operations on explicit lists -/
 macro "py_eval" : tactic => `(tactic|
   (try simp (config := {decide := false}) only [slice, sliceL, loIdx, hiIdx, normIdx, getItem, getItemL, sliceStepL, everyNth, everyNthGo,
-    pyIdx, Option.some.injEq,
+    pyIdx, Option.some.injEq, startswith, endswith, List.isPrefixOf, List.isSuffixOf, Nat.reduceBEq, Nat.reduceBNe,
+    Bool.false_and, Bool.and_false, Bool.true_and, Bool.and_true, Bool.false_eq_true,
     chars_cons, chars_nil, enumerate_cons, enumerate_nil, List.zip_cons_cons, List.zip_nil_left, List.zip_nil_right,
     List.reverse_cons, List.reverse_nil, List.nil_append, List.cons_append, List.length_cons, List.length_nil,
     List.take_succ_cons, List.take_zero, List.drop_succ_cons, List.drop_zero, List.take_nil, List.drop_nil,
@@ -283,6 +474,23 @@ end Py.VcImpl
 
 open Py.VcImpl in
 elab "py_split_mem" : tactic => liftMetaTactic fun g => splitMemLoop g
+
+namespace Py.VcImpl
+/-- split hypotheses of the form `(if c then a else b) = x` / `x = (if c then a else b)` -/
+partial def splitIteLoop (g : MVarId) (fuel : Nat := 4) : MetaM (List MVarId) := g.withContext do
+  if fuel == 0 then return [g]
+  for ldecl in ← getLCtx do
+    if ldecl.isImplementationDetail then continue
+    let t ← instantiateMVars ldecl.type
+    let some (_, l, r) := t.eq? | continue
+    if l.isAppOfArity ``ite 5 || r.isAppOfArity ``ite 5 then
+      if let some gs ← splitLocalDecl? g ldecl.fvarId then
+        return (← gs.mapM (fun g' => splitIteLoop g' (fuel - 1))).flatten
+  return [g]
+end Py.VcImpl
+
+open Py.VcImpl in
+elab "py_split_ite" : tactic => liftMetaTactic fun g => splitIteLoop g
 
 namespace Py.VcImpl
 /-- length of the longest explicit list literal inside `e` -/
@@ -340,6 +548,59 @@ theorem isAsciiAlnum_of_contains {A : Str} (hA : A.all isAsciiAlnum = true) {c :
     (hc : A.contains c = true) : isAsciiAlnum c = true := of_contains hA hc
 end Py
 
+open Py.VcImpl in
+/-- goal `Q c = true` for an arbitrary Boolean property `Q` of one character `c`, from `A.contains c = true`
+(enumeration of the alphabet `A`), `isAsciiDigit c = true` or `isAsciiUpper c = true` -/
+elab "py_char_any" : tactic => withMainContext do
+  let g ← getMainGoal
+  let tgt ← instantiateMVars (← g.getType)
+  let some (_, lhs, rhs) := tgt.eq? | throwError "py_char_any: not an equation"
+  unless rhs.isConstOf ``Bool.true do throwError "py_char_any: not `= true`"
+  for ldecl in ← getLCtx do
+    if ldecl.isImplementationDetail then continue
+    let t ← instantiateMVars ldecl.type
+    let some (_, l, r) := t.eq? | continue
+    unless r.isConstOf ``Bool.true do continue
+    let (c, lem) ←
+      if l.isAppOfArity ``List.contains 4 then pure (l.getArg! 3, ``Py.of_contains)
+      else if l.isAppOfArity ``Py.isAsciiDigit 1 then pure (l.getArg! 0, ``Py.of_isAsciiDigit)
+      else if l.isAppOfArity ``Py.isAsciiUpper 1 then pure (l.getArg! 0, ``Py.of_isAsciiUpper)
+      else continue
+    unless c.isFVar && lhs.containsFVar c.fvarId! do continue
+    let q ← mkLambdaFVars #[c] lhs
+    let qS ← Term.exprToSyntax q
+    let hS ← Term.exprToSyntax (mkFVar ldecl.fvarId)
+    let lemS := mkIdent lem
+    try
+      evalTactic (← `(tactic| exact $lemS (Q := $qS) (by decide) $hS))
+      return
+    catch _ => continue
+  for ldecl in ← getLCtx do
+    if ldecl.isImplementationDetail then continue
+    let t ← instantiateMVars ldecl.type
+    let singleton? (e : Expr) : Option Expr :=
+      if e.isAppOfArity ``List.cons 3 && (e.getArg! 2).isAppOfArity ``List.nil 1 then some (e.getArg! 1) else none
+    let cand : Option (Expr × Name) :=
+      if t.isAppOfArity ``Membership.mem 5 && isExplicitList (t.getArg! 3) then some (t.getArg! 4, ``Py.of_mem)
+      else if t.isAppOfArity ``List.Mem 3 && isExplicitList (t.getArg! 2) then some (t.getArg! 1, ``Py.of_mem)
+      else match t.eq? with
+        | some (_, l, r) =>
+          if l.isAppOfArity ``Py.strOfInt 1 then (singleton? r).map (·, ``Py.of_strOfInt_eq)
+          else if r.isAppOfArity ``Py.strOfInt 1 then (singleton? l).map (·, ``Py.of_strOfInt_eq')
+          else none
+        | none => none
+    let some (c, lem) := cand | continue
+    unless c.isFVar && lhs.containsFVar c.fvarId! do continue
+    let q ← mkLambdaFVars #[c] lhs
+    let qS ← Term.exprToSyntax q
+    let hS ← Term.exprToSyntax (mkFVar ldecl.fvarId)
+    let lemS := mkIdent lem
+    try
+      evalTactic (← `(tactic| exact $lemS (Q := $qS) (by decide) $hS))
+      return
+    catch _ => continue
+  throwError "py_char_any: no class fact applies"
+
 /-- goal `Q c = true` for a character class `Q`, from a class fact about the same character -/
 macro "py_char" : tactic => `(tactic| first
   | assumption
@@ -347,7 +608,8 @@ macro "py_char" : tactic => `(tactic| first
   | exact Py.contains_of_isAsciiUpper (by decide) ‹_›
   | exact Py.isAsciiDigit_of_contains (by decide) ‹_›
   | exact Py.isAsciiAlnum_of_contains (by decide) ‹_›
-  | exact Py.contains_of_contains (by decide) ‹_›)
+  | exact Py.contains_of_contains (by decide) ‹_›
+  | py_char_any)
 
 /-- goal `AllIn isAscii s` (C15) from a gate on the whole string -/
 macro "py_ascii" : tactic => `(tactic| first
@@ -356,6 +618,52 @@ macro "py_ascii" : tactic => `(tactic| first
   | exact Py.allIn_isAscii_of_isasciiS ‹_›
   | exact Py.allIn_of_alphabet ‹_› (by decide)
   | exact Py.allIn_isAscii_of_alnum ‹_›)
+
+namespace Py.VcImpl
+/-- the integer literals occurring as first components of pairs in `e` -/
+partial def pairKeys (e : Expr) (acc : Array Int := #[]) : Array Int :=
+  match e with
+  | .app f a =>
+    let acc := if e.isAppOfArity ``Prod.mk 4 then
+        match (e.getArg! 2).int? with
+        | some k => acc.push k
+        | none => acc
+      else acc
+    pairKeys a (pairKeys f acc)
+  | .mdata _ e => pairKeys e acc
+  | _ => acc
+end Py.VcImpl
+
+open Py.VcImpl in
+/-- goal `dictHas D e = true` for a literal dictionary with integer keys: `e` is one of the keys (by `omega`) -/
+elab "py_dict_has" : tactic => withMainContext do
+  let g ← getMainGoal
+  let tgt := (← instantiateMVars (← g.getType)).consumeMData
+  let some (_, lhs, _) := tgt.eq? | throwError "py_dict_has: not an equation {tgt}"
+  let lhs := lhs.consumeMData
+  unless lhs.isAppOfArity ``Py.dictHas 5 do throwError "py_dict_has: not dictHas"
+  let d := lhs.getArg! 3
+  let d' : Expr ← (do
+    if d.isConst then
+      match ← unfoldDefinition? d with
+      | some v => pure v
+      | none => pure d
+    else pure d)
+  let keys := pairKeys d'
+  if keys.isEmpty then throwError "py_dict_has: no integer keys"
+  evalTactic (← `(tactic| try simp only [isAsciiDigit, Bool.and_eq_true, decide_eq_true_eq, Py.digitsVal_two,
+    Py.digitsVal_three, Py.digitsVal_four] at *))
+  let g ← getMainGoal
+  let tgt := (← instantiateMVars (← g.getType)).consumeMData
+  let some (_, lhs, _) := tgt.eq? | throwError "py_dict_has: not an equation"
+  let eS ← g.withContext <| Term.exprToSyntax (lhs.consumeMData.getArg! 4)
+  let mut disj : TSyntax `term ← `(False)
+  for k in keys.reverse do
+    let kS : TSyntax `term ← if k < 0 then `(-$(Syntax.mkNumLit (Nat.repr k.natAbs))) else `($(Syntax.mkNumLit (Nat.repr k.natAbs)))
+    disj ← `($eS = $kS ∨ $disj)
+  evalTactic (← `(tactic| have hk__ : $disj := by omega))
+  evalTactic (← `(tactic| repeat' (rcases hk__ with hk__ | hk__)))
+  evalTactic (← `(tactic| all_goals first | (exact hk__.elim) | (rw [hk__]; decide)))
 
 /-! ## closers -/
 
@@ -386,6 +694,7 @@ macro "py_cursor" : tactic => `(tactic|
 macro "py_close_generic" : tactic => `(tactic| (py_digits; py_cursor; first
   | done
   | assumption
+  | exact Py.isDigits_of_alphabet ‹_› (by decide) (by omega) (by omega)
   | (simp only [List.length_cons, List.length_nil] at *; omega)
   | (refine Py.isDigits_slice_le (Py.allIn_of_B ‹_›) ?_ ?_ <;> (simp (config := {decide := false}) [loIdx, hiIdx] at * <;> omega))
   | (simp (config := {decide := false}) at *; omega)
@@ -399,11 +708,12 @@ macro "py_close_concrete1" : tactic => `(tactic| (first
   | omega
   | py_char
   | decide
+  | py_dict_has
   | (py_clear_big; simp_all (config := {decide := false}) [isDigitsB, IsDigits, Py.digitsVal_two, Py.digitsVal_three, Py.digitsVal_four]; done)
   | (py_clear_big; simp_all (config := {decide := false}) [isDigitsB, IsDigits, Py.digitsVal_two, Py.digitsVal_three, Py.digitsVal_four]; omega)))
 
 macro "py_close_concrete" : tactic => `(tactic|
-  (py_split_mem <;> (py_chars; all_goals first
+  (py_split_mem <;> py_split_ite <;> (py_chars; all_goals (try subst_vars); all_goals first
     | done
     | py_close_concrete1
     | ((repeat' apply And.intro) <;> py_close_concrete1))))
@@ -419,6 +729,7 @@ macro "py_vc3" : tactic => `(tactic| (py_prep; all_goals first
   | assumption
   | omega
   | py_exc
+  | py_rx_exc
   | py_ascii
   | (py_split_len <;> (py_explode; py_eval; all_goals (try subst_vars); all_goals py_close_concrete))
   | py_close_generic))
@@ -444,6 +755,68 @@ macro "py_compact_digits " h:ident : tactic => `(tactic|
    simp (disch := first | assumption | decide) only [Py.clean_eq, bind, Except.bind, pure, Except.pure,
       Py.cleanP_digits, Py.upper_of_asciiDigits, Py.lower_of_asciiDigits, Py.strip_eq_self_of_asciiDigit,
       Py.startswith_false_of_digits, Bool.false_eq_true, if_false, ite_false, reduceIte]))
+
+/-- C12g: validate returned its argument (`h : compact-expression = v`): state every gate about `v` itself -/
+macro "py_getter_eq " h:ident : tactic => `(tactic| (try simp only [$h:ident] at *))
+
+/-- C12g (summary variant): the returned string satisfies the top-level gates -/
+macro "py_gates" : tactic => `(tactic| (py_prep; all_goals first
+  | done
+  | exact True.intro
+  | assumption
+  | ((repeat' apply And.intro) <;> first | assumption | omega | (simp_all; done))
+  | (simp_all; done)))
+
+/-- C05g: the generator's result and the check character(s) are in the context as equations -/
+macro "py_c05" : tactic => `(tactic| (py_prep; all_goals first
+  | done
+  | exact True.intro
+  | assumption
+  | (refine ⟨_, ?_, ?_⟩ <;> assumption)
+  | (simp_all; done)))
+
+open Py.VcImpl in
+/-- goal `… = Except.ok L` with an explicit string `L`: record that all its characters are in `0-9A-Z` (if so) -/
+elab "py_alnum36" : tactic => withMainContext do
+  let g ← getMainGoal
+  let tgt := (← instantiateMVars (← g.getType)).consumeMData
+  let some (_, _, rhs) := tgt.eq? | return
+  let rhs := rhs.consumeMData
+  let l := if rhs.isAppOfArity ``Except.ok 3 then rhs.appArg! else rhs
+  unless isExplicitList l do return
+  let lS ← Term.exprToSyntax l
+  try
+    evalTactic (← `(tactic| have h36__ : List.all $lS (fun c => Py.alnum36.contains c) = true := by
+      (simp only [List.all_cons, List.all_nil, Bool.and_eq_true, Bool.and_true]; (repeat' apply And.intro) <;> (first | py_char_any | decide))))
+  catch _ => pure ()
+
+/-- evaluate an unfolded `compact` under the path conditions and the gates in the context -/
+macro "py_compact_eval" : tactic => `(tactic|
+  (simp (disch := first | assumption | decide | omega) only [Py.clean_eq, bind, Except.bind, pure, Except.pure,
+      Py.cleanP_of_isDigitsB, Py.upper_of_isDigitsB, Py.lower_of_isDigitsB, Py.strip_of_isDigitsB,
+      Py.cleanP_digits, Py.upper_of_asciiDigits, Py.lower_of_asciiDigits, Py.strip_eq_self_of_asciiDigit,
+      Py.cleanP_of_alphabet, Py.strip_of_alphabet, Py.upper_of_alphabet,
+      Py.cleanP_idem, Py.strip_strip, Py.lstripChars_idem, Py.rstripChars_idem, Py.stripChars_idem, Py.lstrip_idem,
+      Py.rstrip_idem, Py.zfill_eq_self, Py.startswith_false_of_digits,
+      Bool.false_eq_true, if_false, ite_false, if_true, ite_true, reduceIte, *]))
+
+/-- C02i: at the return point of validate (all gates in the context) the returned string `T` is what compact gives for
+the input and is a fixed point of compact and of strip -/
+macro "py_c02 " f:ident : tactic => `(tactic| (py_prep; all_goals first
+  | done
+  | exact True.intro
+  | (refine ⟨?_, ?_, ?_⟩
+     · (unfold $f:ident; first | rfl | (py_compact_eval; first | done | rfl))
+     · first
+       | (unfold $f:ident; py_compact_eval; first | done | rfl)
+       | (py_split_len <;> (py_explode; py_eval; all_goals (try subst_vars); all_goals py_chars; all_goals (try subst_vars); all_goals py_alnum36; all_goals (unfold $f:ident); all_goals py_compact_eval; all_goals (first | done | rfl | (py_eval; first | done | rfl))))
+     · first
+       | exact Py.strip_strip _
+       | exact Py.strip_of_isDigitsB ‹_›
+       | exact Py.strip_eq_self_of_asciiDigit _ ‹_›
+       | exact Py.strip_of_alphabet ‹_› (by decide)
+       | (simp (disch := first | assumption | decide) only [Py.strip_strip, Py.strip_of_isDigitsB, Py.strip_of_alphabet]; done)
+       | (py_split_len <;> (py_explode; py_eval; all_goals (try subst_vars); all_goals py_chars; all_goals (try subst_vars); all_goals py_alnum36; all_goals (first | done | exact Py.strip_of_alphabet ‹_› (by decide)))))))
 
 /-- the closing tactic used by the generated contract proofs -/
 macro "py_vc" : tactic => `(tactic| py_vc3)
